@@ -453,10 +453,26 @@ func init() { //nolint:gochecknoinits
 				out = append(out, sp)
 			}
 
+			// the peer's first INIT lists other extensions than the INIT the handshake completes with
+			nr := vfTierN(tier, 8, 48)
+			if race {
+				nr = 2
+			}
+			for i := 0; i < nr; i++ {
+				r := vfNewRand(vfHash(seed, uint64(i), 0x17e))
+				sp := vfSpec{Prop: "C17", Kind: "init-retry", ID: fmt.Sprintf("C17-retry-%d", i), Seed: r.Uint64()}
+				sp.A = vfSideCfg{IL: true, ZC: r.Intn(2) == 0, InitTSN: r.Uint32(), Tag: r.Uint32() | 1}
+				sp.Link = vfLinkCfg{DelayUs: int64(r.Pick(1000, 20000))}
+				sp.X = map[string]int64{"first_il": int64(i % 2)} // 1: I-DATA listed first, then not; 0: the other way round
+				out = append(out, sp)
+			}
+
 			return out
 		},
 		run: func(t *testing.T, spec *vfSpec, res *vfRes) {
 			switch spec.Kind {
+			case "init-retry":
+				vfRunInitRetry(t, spec, res)
 			case "sched":
 				vfRunSchedBatch(spec, res)
 			case "wrong-kind":
@@ -470,5 +486,57 @@ func init() { //nolint:gochecknoinits
 				res.res.Sample = map[string]any{"kind": "il-sim", "il_a": spec.A.IL, "il_b": spec.B.IL, "negotiated": il, "scheduler": spec.A.Sched, "streams": len(spec.Streams), "layout_chunks_checked": res.get("c17_layout_chunks")}
 			}
 		},
+	})
+}
+
+// vfRunInitRetry: the endpoint (interleaving enabled locally) answers two INITs of the same peer, the first of which
+// "lost" its INIT-ACK. What counts is the INIT the handshake was completed with: I-DATA / I-FORWARD-TSN go out if and
+// only if that one listed them.
+func vfRunInitRetry(t *testing.T, spec *vfSpec, res *vfRes) {
+	vfRunBubble(t, spec.ID, func(t *testing.T) {
+		sim := vfNewSim(t, spec, res)
+		plain := []byte{vfCtReconfig, vfCtForwardTSN}
+		il := []byte{vfCtReconfig, vfCtForwardTSN, vfCtIData, vfCtIForwardTSN}
+		first, final := plain, il
+		if spec.x("first_il", 0) == 1 {
+			first, final = il, plain
+		}
+		finalIL := spec.x("first_il", 0) == 0
+		p, ok := sim.startWithPuppet(vfPuppetCfg{InitTSN: 5000, AutoAck: true, Active: true, FirstExt: first, Ext: final})
+		if !ok {
+			res.violate("C04", "handshake/puppet", "handshake with a peer that repeats its INIT failed: %v", sim.connErr[0])
+			sim.teardownPuppet(p)
+
+			return
+		}
+		a := sim.A()
+		if st, err := a.OpenStream(1, PayloadTypeWebRTCBinary); err == nil {
+			for i := 0; i < 4; i++ {
+				_, _ = st.WriteSCTP(vfMakeMsg(7, i, 200+i*900), PayloadTypeWebRTCBinary)
+			}
+		}
+		time.Sleep(2 * time.Second)
+		nData := 0
+		for _, d := range p.received() {
+			for i := range d.Chunks {
+				c := &d.Chunks[i]
+				if !c.isData() {
+					continue
+				}
+				nData++
+				if (c.Type == vfCtIData) != finalIL {
+					res.violate("C17", "emit/wrong-kind-after-init-retry", "the peer's first INIT listed I-DATA=%v, the INIT the handshake was completed with I-DATA=%v, and the endpoint (interleaving enabled) wrote %s", !finalIL, finalIL, c.kind())
+				}
+			}
+		}
+		res.count("c17_init_retry_chunks", int64(nData))
+		if md, okm := a.Metadata(); okm && md.MessageInterleavingEnabled != finalIL {
+			res.violate("C17", "meta/interleaving-after-init-retry", "Metadata().MessageInterleavingEnabled = %v after a handshake completed with an INIT that listed I-DATA=%v", md.MessageInterleavingEnabled, finalIL)
+		}
+		sim.teardownPuppet(p)
+		sim.finalLeakCheck()
+		res.res.Nontrivial = nData > 0
+		res.res.Sig = fmt.Sprintf("init-retry|final-il=%v", finalIL)
+		res.res.Sample = map[string]any{"kind": "init-retry", "final_init_lists_idata": finalIL, "data_chunks_seen": nData}
 	})
 }
